@@ -66,9 +66,41 @@ impl Prop for C07 {
             inputs,
             24,
         );
-        let g = prop_oneof![2 => plain, 1 => uni];
+        // a terminal that may match the empty string (`Sg: /[+-]?/`, as integer_suffix_opt in
+        // examples/clang), in positions where a non-empty token always follows it
+        let sign = (0usize..3, gen::tapes(8..14, 20)).prop_map(|(k, tapes)| {
+            use crate::spec::*;
+            let terms = vec![
+                TermSpec::regex("Sg", "[+-]?", &["+", "-", "", ""]),
+                TermSpec::regex("Num", "\\d+", &["1", "42"]),
+                TermSpec::str("Semi", ";"),
+                TermSpec::str("LPar", "("),
+                TermSpec::str("RPar", ")"),
+            ];
+            let t = |i: usize| Sym::T(i);
+            let n = |i: usize| Sym::N(i);
+            let rules = match k {
+                0 => vec![
+                    RuleSpec { name: "S".into(), annotation: None, meta: Meta::default(), alts: vec![AltSpec::of(vec![n(0), n(1)]), AltSpec::of(vec![n(1)])] },
+                    RuleSpec { name: "A".into(), annotation: None, meta: Meta::default(), alts: vec![AltSpec::of(vec![t(0), t(1), t(2)])] },
+                ],
+                1 => vec![
+                    RuleSpec { name: "S".into(), annotation: None, meta: Meta::default(), alts: vec![AltSpec::of(vec![t(0), t(1)]), AltSpec::of(vec![t(3), n(0), t(4)])] },
+                ],
+                _ => vec![
+                    RuleSpec { name: "S".into(), annotation: None, meta: Meta::default(), alts: vec![AltSpec::of(vec![n(1), t(2), n(0)]), AltSpec::of(vec![n(1), t(2)])] },
+                    RuleSpec { name: "A".into(), annotation: None, meta: Meta::default(), alts: vec![AltSpec::of(vec![t(0), t(1)]), AltSpec::of(vec![t(3), n(1), t(4)])] },
+                ],
+            };
+            GCase { spec: GrammarSpec { terms, rules, layout: None }, tapes, lines: false, layout_mode: 0 }
+        });
+        let g = prop_oneof![8 => plain, 4 => uni, 1 => sign.boxed()];
         (g, prop_oneof![4 => Just(0u8), 1 => Just(1u8), 1 => Just(2u8), 1 => Just(3u8), 1 => Just(4u8)])
-            .prop_map(|(g, mode)| Case { g, mode })
+            .prop_map(|(g, mode)| {
+                // the empty-matching family only under default whitespace skipping
+                let mode = if g.spec.terms.first().map(|t| t.name == "Sg").unwrap_or(false) { 0 } else { mode };
+                Case { g, mode }
+            })
             .boxed()
     }
     fn cases(&self, tier: Tier) -> u32 {
